@@ -605,6 +605,13 @@ class StateMachine:
                 if self.__should_engage:
                     self.next_state(self.__first)
                     state = self.__state
+
+                    # the machine starts over at the instant the final state
+                    # expired, so every repetition lasts as long as the first
+                    self.__start += new_state_start
+                    self.__engaged = True
+                    tm = now - self.__start
+                    new_state_start = 0
                 else:
                     state = None
             else:
